@@ -73,3 +73,9 @@ claim("C12",
       "Decides the structure that keeps request-scoped definitions inside their TempVM: Add* write only the TempVM's own tables, no TempVM method delegates to a base-VM method that can reach the base VM's Add* (three existing delegations are listed findings), the TempVM parses with a parser cloned and bound to itself, every lookup consults the base VM, and the private tables never escape. What earlier requests did (histories) and the deliberately shared file cache / constants are not decided.",
       "call graph is VTA refined from CHA, traversed through module functions with closures treated as called by their creator; intentional process-wide registrations listed as assumed",
       "DESIGN.md §2 C12")
+
+claim("C02",
+      "control-value dataflow over every evaluator function of package node (structured abstract interpreter: pending/known-non-nil control variables, break/continue arm typestate), level-field use census, parser constructor-argument check, allocation check of CreateContext",
+      "Decides the structural clauses of 'every loop exit and return transfers control to exactly the construct it names' and 'locals of one call are never visible to another': a control returned by a child evaluation is tested, returned or passed on before the next evaluation, before it is overwritten and before the function returns; in statement containers a control known to be non-nil is never dropped; each loop's continue arm leaves the statement loop; each loop's/switch's break arm hands back nil or a level-reduced new control, never the break it received; the level of break N / continue N is parsed, stored and read; CreateContext allocates a fresh variable vector. What programs print (conditions, arithmetic, defaults, static locals, switch fall-through) is value-level and not decided.",
+      "child evaluations identified by result type data.Control (Context lookups excluded); 'statement container' = node type holding a list of child nodes; expression helpers that suppress errors on purpose (isset/empty/@/??) are outside the swallowed rule; generator resume paths keep level 1; assumed table listed in evidence",
+      "DESIGN.md §2 C02")
